@@ -1396,7 +1396,7 @@ and seen by get_state; a join issued in that window stores REQ_JOIN and sleeps u
 revive; the restarted scheduler runs a unit pushed after the revive; nothing is stale, no assertion failed -/
 example :
     let tr : List Model.XsLife.Ev :=
-      [.ctx (.tau .T), .nRoot, .push, .nRun, .cancel, .nLoadReq false true, .nSetExit, .nStop, .nMsf true, .nMTerm, .nPubTerm,
+      [.ctx (.tau .T), .nRoot false, .push, .nRun, .cancel, .nLoadReq false true, .nSetExit, .nStop, .nMsf true, .nMTerm, .nPubTerm,
        .getState true,
        .call .join, .jFin, .jLoadM true,
        .ctx (.call .join), .ctx (.lock .C), .ctx (.tau .C), .ctx (.store .C .reqJoin), .ctx (.wait .C),
@@ -1405,7 +1405,7 @@ example :
        .call .revive, .rLoadM true, .rReset, .rReady, .rClear, .rPush, .rPub,
        .ctx (.call .revive), .ctx (.lock .C), .ctx (.store .C .running), .ctx (.signal .C (some .T)), .ctx (.unlock .C),
        .ret .revive, .getState false,
-       .ctx (.relock .T), .ctx (.tau .T), .ctx (.unlock .T), .nRoot, .nLoadReq false false, .push, .nRun]
+       .ctx (.relock .T), .ctx (.tau .T), .ctx (.unlock .T), .nRoot false, .nLoadReq false false, .push, .nRun]
     (Model.XsLife.machine.run Model.XsLife.init tr).map (fun s => (s.ran, s.pub, s.cause, s.npc, s.lpc))
       = some (2, false, false, .sched, .idle) ∧
     (Model.XsLife.machine.run Model.XsLife.init tr).map (fun s => (s.fin, s.ext, s.jreq, s.creq, s.fault, s.x.fault))
@@ -1420,7 +1420,7 @@ the running stream: join request, FINISH posted by ABTI_xstream_check_events, te
 the native thread exits -/
 example :
     let tr : List Model.XsLife.Ev :=
-      [.ctx (.tau .T), .nRoot, .push, .push, .nRunExit, .nLoadReq false true, .nSetExit, .nStop, .nMsf true, .nMTerm,
+      [.ctx (.tau .T), .nRoot false, .push, .push, .nRunExit, .nLoadReq false true, .nSetExit, .nStop, .nMsf true, .nMTerm,
        .nPubTerm, .ctx .ret, .ctx (.lock .T), .ctx (.tau .T), .ctx (.store .T .waiting), .ctx (.wait .T),
        .call .join, .jFin, .jLoadM true, .ctx (.call .join), .ctx (.lock .C), .ctx (.tau .C), .ctx (.tau .C),
        .ctx (.unlock .C), .jPub, .ret .join,
@@ -1429,7 +1429,7 @@ example :
        .call .revive, .rLoadM true, .rReset, .rReady, .rClear, .rPush, .rPub,
        .ctx (.call .revive), .ctx (.lock .C), .ctx (.store .C .running), .ctx (.signal .C (some .T)), .ctx (.unlock .C),
        .ret .revive,
-       .ctx (.relock .T), .ctx (.tau .T), .ctx (.unlock .T), .nRoot, .nRun,
+       .ctx (.relock .T), .ctx (.tau .T), .ctx (.unlock .T), .nRoot false, .nRun,
        .call .free, .jFin, .jLoadM false, .jSetJ, .nLoadReq true false, .nSetFin, .nStop, .nMsf true, .nMTerm, .jLoadM true,
        .nPubTerm, .ctx .ret, .ctx (.lock .T), .ctx (.tau .T), .ctx (.store .T .waiting), .ctx (.wait .T),
        .ctx (.call .join), .ctx (.lock .C), .ctx (.tau .C), .ctx (.tau .C), .ctx (.unlock .C), .jPub,
@@ -1445,7 +1445,7 @@ example :
 /-- the hypotheses of `revived_stream_runs` are met by a reachable state in which the revived thread has not even
 re-acquired its mutex yet -/
 example : ∃ s, Reach s ∧ s.cause = false ∧ s.lpc = .idle ∧ 0 < s.pending ∧ s.npc = .out ∧ s.x.tpc = .woken :=
-  ⟨_, ⟨[.ctx (.tau .T), .nRoot, .cancel, .nLoadReq false true, .nSetExit, .nStop, .nMsf true, .nMTerm, .nPubTerm,
+  ⟨_, ⟨[.ctx (.tau .T), .nRoot false, .cancel, .nLoadReq false true, .nSetExit, .nStop, .nMsf true, .nMTerm, .nPubTerm,
         .ctx .ret, .ctx (.lock .T), .ctx (.tau .T), .ctx (.store .T .waiting), .ctx (.wait .T),
         .call .join, .jFin, .jLoadM true, .ctx (.call .join), .ctx (.lock .C), .ctx (.tau .C), .ctx (.tau .C),
         .ctx (.unlock .C), .jPub, .ret .join,
@@ -1459,7 +1459,7 @@ context join.  Neither `ret join` nor a revive is a step there — the history "
 state is TERMINATED; revive" is not a run of the model. -/
 theorem early_return_join_rejected :
     let pre : List Model.XsLife.Ev :=
-      [.ctx (.tau .T), .nRoot, .cancel, .nLoadReq false true, .nSetExit, .nStop, .nMsf true, .nMTerm, .nPubTerm,
+      [.ctx (.tau .T), .nRoot false, .cancel, .nLoadReq false true, .nSetExit, .nStop, .nMsf true, .nMTerm, .nPubTerm,
        .getState true, .call .join, .jFin, .jLoadM true]
     (Model.XsLife.machine.run Model.XsLife.init pre).map (fun s => (s.pub, s.x.st, s.x.tpc, s.lpc))
         = some (true, .running, .run, .jCtx) ∧
@@ -1474,7 +1474,7 @@ not a run: after "join; join again" the FINISH bit posted by the second join on 
 when `rReady` would be next. -/
 theorem revive_without_reset_rejected :
     let pre : List Model.XsLife.Ev :=
-      [.ctx (.tau .T), .nRoot, .cancel, .nLoadReq false true, .nSetExit, .nStop, .nMsf true, .nMTerm, .nPubTerm,
+      [.ctx (.tau .T), .nRoot false, .cancel, .nLoadReq false true, .nSetExit, .nStop, .nMsf true, .nMTerm, .nPubTerm,
        .ctx .ret, .ctx (.lock .T), .ctx (.tau .T), .ctx (.store .T .waiting), .ctx (.wait .T),
        .call .join, .jFin, .jLoadM true, .ctx (.call .join), .ctx (.lock .C), .ctx (.tau .C), .ctx (.tau .C),
        .ctx (.unlock .C), .jPub, .ret .join, .call .revive, .rLoadM true]
